@@ -18,8 +18,8 @@ RULE = ("conversion: every string N(.N){0,2}[-(alpha|beta|rc)[.N]] over the stat
 ASSUMPTIONS = ["precedence as the property defines it: numeric per field (missing = 0), alpha < beta < rc < release, "
                "then pre-release number (missing = 0)",
                "mixed-arity pairs whose shorter string carries a label are outside the domain (DESIGN.md O1)"]
-BOUNDS = {"quick": "fields in {0,1,2,10,255}: all pairs; VERSION tuples {0,1,2,127,254,255}^4 all ordered pairs",
-          "thorough": "fields in {0,1,2,9,10,255,256,300}: all pairs; VERSION tuples as quick x all EXTRAVERSION forms"}
+BOUNDS = {"quick": "fields in {0,1,2,10,255}: all pairs; every field value 0..300 one field at a time (arity 1..4, others 0); VERSION tuples {0,1,2,127,254,255}^4 all ordered pairs; every VERSION field value one at a time (others 0 / 1)",
+          "thorough": "fields in {0,1,2,9,10,255,256,300}: all pairs; field sweeps with the others in {0,7,255}; VERSION sweeps with the others in {0,1,128,255}; VERSION tuples as quick x all EXTRAVERSION forms"}
 
 LABELS = ["alpha", "beta", "rc"]
 RANK = {"alpha": -3, "beta": -2, "rc": -1}
@@ -341,6 +341,85 @@ def run_seq_order(case, agg):
     if case["lo"] == 0:
         agg.samples.append({"tuple": tuples[7], "seq": seqs[7]})
 
+# -- complete field range, one field at a time -----------------------------------------------------------
+def sweep_cases(tier):
+    others = [0] if tier == "quick" else [0, 7, 255]
+    return [{"ar": ar, "pos": pos, "o": o} for ar in (1, 2, 3, 4) for pos in range(ar) for o in others if not (ar == 1 and o != others[0])]
+
+
+def run_sweep(case, agg):
+    """EVERY value 0..300 of one numeric field (the others fixed) x every pre-release form, one arity: the converted lists,
+    sorted by semantic-version precedence, must be strictly increasing exactly where the precedence is (both relations are
+    total preorders on strings of one arity, so consistency of neighbours in the sorted order is consistency of all pairs)"""
+    V = _conv()
+    ar, pos, o = case["ar"], case["pos"], case["o"]
+    rows = []
+    for v in range(0, 301):
+        rel = [o] * ar
+        rel[pos] = v
+        for pre in PRE_FORMS + [(l, n) for l in LABELS for n in (2, 9, 255, 256, 300)]:
+            s = ".".join(map(str, rel))
+            if pre:
+                s += "-" + pre[0] + ("" if pre[1] is None else f".{pre[1]}")
+            okey = tuple(rel) + ((0, 0) if pre is None else (RANK[pre[0]], pre[1] or 0))
+            try:
+                lst = V.from_obj(s).to_obj()
+                V.from_obj(s).to_cbor()
+            except Exception as e:
+                agg.viol("C20:convert/rejected-supported-string", f"{s!r}: {type(e).__name__}: {e}")
+                return
+            if not (isinstance(lst, list) and all(isinstance(x, int) and not isinstance(x, bool) for x in lst)):
+                agg.viol("C20:convert/non-integer-list", f"{s!r}: {lst!r}")
+                return
+            rows.append((okey, s, tuple(lst)))
+    rows.sort(key=lambda r: r[0])
+    m = max(len(r[2]) for r in rows)
+    for a, b in zip(rows, rows[1:]):
+        if sign(a[0], b[0]) != sign(pad(a[2], m), pad(b[2], m)):
+            agg.viol("C20:precedence-mismatch", f"{a[1]!r} -> {list(a[2])} vs {b[1]!r} -> {list(b[2])}: list order "
+                     f"{sign(pad(a[2], m), pad(b[2], m))}, semantic-version precedence {sign(a[0], b[0])}")
+            return
+    for okey, s, lst in rows:
+        agg.ok(h8("c20s", s), "ok:sweep", sample={"string": s, "list": list(lst)} if s in ("300-rc.300", "7.7.123.7-beta") else None)
+
+
+def run_glue_sweep(case, agg):
+    """every value 0..255 of one VERSION field (0..300 for the major), the others fixed: the sequence number is the
+    order-preserving value and strictly increasing along the sweep; the version text is accepted and names the fields"""
+    from ncs import build
+    V = _conv()
+    pos, o, via = case["pos"], case["o"], case["via"]
+    prev = None
+    with fresh_dir("c20g") as d:
+        for v in range(0, 301 if pos == 0 else 256):
+            f4 = [o, o, o, o]
+            f4[pos] = v
+            M, m, p, t = f4
+            vd = _version_dict(M, m, p, t, None)
+            try:
+                if via == "file":
+                    f = os.path.join(d, "VERSION")
+                    with open(f, "w") as fh:
+                        fh.write("".join(f"{k} = {x}\n" for k, x in vd.items()))
+                    res = dict(build.read_version_file(f))
+                else:
+                    cfg = {"VERSION": dict(vd)}
+                    build.append_default_version_values(cfg)
+                    res = cfg["VERSION"]
+                seq, ver = int(res["DEFAULT_SEQ_NUM"]), res["DEFAULT_VERSION"]
+                lst = V.from_obj(ver).to_obj()
+            except Exception as e:
+                agg.viol(f"C20:glue/crash/{type(e).__name__}", f"{vd}: {e}")
+                return
+            if seq != (M << 24) + (m << 16) + (p << 8) + t or (prev is not None and not seq > prev):
+                agg.viol("C20:glue/sequence-number", f"{vd}: DEFAULT_SEQ_NUM {seq} (previous value of the sweep: {prev}), order-preserving value {(M << 24) + (m << 16) + (p << 8) + t}")
+                return
+            if tuple(lst[:3]) != (M, m, p):
+                agg.viol("C20:glue/version-release-part", f"{vd}: DEFAULT_VERSION {ver!r} -> {lst}")
+                return
+            prev = seq
+            agg.ok(h8("c20g", case, v), f"ok:{via}")
+
 
 def plan(tier):
     n4 = len(FIELD) ** 4
@@ -353,6 +432,10 @@ def plan(tier):
                   run_unquoted, rule="18 version texts written without quotes in YAML / as numbers in JSON, through cmd_create.main"),
         CaseStage("override-keys", lambda: override_cases(tier), run_override,
                   rule="4 versions x tweak x APP_ROOT_VERSION {absent, 2 values} x APP_ROOT_SEQ_NUM {absent, 2 values} x other manifests' keys x dict/file"),
+        CaseStage("field-sweep", lambda: sweep_cases(tier), run_sweep, chunk=1,
+                  rule="arity 1..4 x position x every field value 0..300 x 28 pre-release forms (others fixed); neighbours in precedence order"),
+        CaseStage("glue-field-sweep", [{"pos": pos, "o": o, "via": via} for pos in range(4) for o in ((0, 1) if tier == "quick" else (0, 1, 128, 255)) for via in ("dict", "file")],
+                  run_glue_sweep, chunk=1, rule="every value of one VERSION field (major 0..300, others 0..255), others fixed; dict and file"),
         CaseStage("sequence-order", [{"lo": i, "hi": min(n4, i + 81)} for i in range(0, n4, 81)], run_seq_order, chunk=1,
                   rule="all ordered pairs of (major,minor,patch,tweak) tuples"),
     ]
